@@ -176,6 +176,15 @@ contract(T + "ActiveTagValueProvider.use_value", props=["C19"], params={"value":
                   "a-plain-value-is-returned-as-it-is": "implies(not uf_bool('is_callable', value), result == value)"},
          doc="Unknown is a class, hence callable: calling it would turn the 'category unknown' marker into an instance that no "
              "caller recognises (fix 0460e44)")
+shape("ActiveTagValueProvider", data="dict")
+contract(T + "ActiveTagValueProvider.get", props=["C19"], params={"self": "ref:ActiveTagValueProvider", "category": "any", "default": "any"},
+         self_classes=["ActiveTagValueProvider"], result="any",
+         callsites={"self.use_value": "abs:ActiveTagValueProvider.use_value"},
+         ensures={"a-known-category-yields-its-own-value-also-a-falsy-one-never-the-default":
+                  "implies(has_key(self.data, category), result == used_value(dict_value(self.data, category)))",
+                  "only-an-unknown-category-yields-the-default":
+                  "implies(not has_key(self.data, category), result == used_value(default))"},
+         doc="'' / 0 / False are legitimate current values of a category (C19: the category is known, so its tags decide)")
 PROVS = "as_list(self.value_providers, 'any')"
 KNOWS = "(provider_value(%s[k], category) is not Unknown)" % PROVS
 contract(T + "CompositeActiveTagValueProvider.get", props=P,
